@@ -177,6 +177,8 @@ type cpEngine struct {
 	initMode bool
 	// onceDone: the sync.Once values whose function has run on this path
 	onceDone map[*cpCell]bool
+	// varintBufs: "varintlen:<x>" -> the first cell of the buffer binary.PutVarint wrote the varint of x into
+	varintBufs map[string]*cpCell
 }
 
 type cpAbort struct{ why string }
@@ -304,7 +306,7 @@ func cpFoldOpt(P *Program, fn *ssa.Function, args []cpVal, opaque func(*ssa.Func
 		d := e.pending[len(e.pending)-1]
 		e.pending = e.pending[:len(e.pending)-1]
 		e.decisions, e.taken, e.steps, e.calls, e.uid, e.decided = d, nil, 0, nil, 0, map[string]bool{}
-		e.bytes, e.constraints, e.onceDone = nil, nil, nil
+		e.bytes, e.constraints, e.onceDone, e.varintBufs = nil, nil, nil, nil
 		out, aborted := e.runTop(fn, args)
 		if aborted != "" {
 			return nil, nil, false, aborted
@@ -930,6 +932,11 @@ func (e *cpEngine) eval(fr *cpFrame, v ssa.Value, depth int) cpVal {
 				return cpValueCopy(p.C.V)
 			}
 			if u, ok := a.(cpUnk); ok && strings.HasPrefix(u.ID, "global:") {
+				// an error variable of another package (io.EOF, io.ErrUnexpectedEOF, ...) or a sentinel made by
+				// errors.New at package level in the module: never nil
+				if g, isG := x.X.(*ssa.Global); isG && isErrorType(x.Type()) && g.Pkg != nil && (!e.P.isModulePkg(g.Pkg.Pkg) || cpSentinelError(g)) {
+					return cpIface{T: x.Type(), V: cpUnk{ID: "*" + u.ID}}
+				}
 				return cpUnk{ID: "*" + u.ID} // what a package-level variable holds: unknown, but named
 			}
 			return e.fresh("load")
@@ -1330,6 +1337,29 @@ func (e *cpEngine) binop(x *ssa.BinOp, a, b cpVal) cpVal {
 				return cpUnk{ID: fmt.Sprintf("cmp:%s%s%d", bu.ID, swapOp(x.Op), ak.V), Deps: deps}
 			}
 		}
+		// an unknown compared with nil keeps a name ("cmp:<id>==nil"): the outcome then says which errors were
+		// assumed nil on the path
+		if x.Op == token.EQL || x.Op == token.NEQ {
+			var u cpUnk
+			found := false
+			if au, isA := a.(cpUnk); isA {
+				if _, isN := b.(cpNil); isN {
+					u, found = au, true
+				}
+			}
+			if bu, isB := b.(cpUnk); isB && !found {
+				if _, isN := a.(cpNil); isN {
+					u, found = bu, true
+				}
+			}
+			if found && deps == "" && !strings.HasPrefix(u.ID, "cmp") {
+				id := "cmp:" + u.ID + "==nil"
+				if x.Op == token.NEQ {
+					id = "!" + id
+				}
+				return cpUnk{ID: id}
+			}
+		}
 		// two unknowns compared for equality: the same unknown is equal to itself; two different ones keep a name
 		// (operands in a fixed order) so that the same comparison made twice is decided once, and the outcome says
 		// which two values were assumed equal
@@ -1706,4 +1736,36 @@ func cpInitGlobals(P *Program) map[*ssa.Global]*cpCell {
 	}
 	cpInitCache[P] = out
 	return out
+}
+
+// cpSentinelError: a package-level error variable of the module that its initialiser sets to errors.New(...)
+// or fmt.Errorf(...) and nothing else ever writes.
+func cpSentinelError(g *ssa.Global) bool {
+	if !initOnlyGlobals[g] || g.Pkg == nil {
+		return false
+	}
+	init := g.Pkg.Func("init")
+	if init == nil {
+		return false
+	}
+	n := 0
+	for _, b := range init.Blocks {
+		for _, in := range b.Instrs {
+			st, ok := in.(*ssa.Store)
+			if !ok || st.Addr != ssa.Value(g) {
+				continue
+			}
+			n++
+			call, isCall := st.Val.(*ssa.Call)
+			if !isCall || call.Call.StaticCallee() == nil {
+				return false
+			}
+			switch qualName(call.Call.StaticCallee()) {
+			case "errors.New", "fmt.Errorf":
+			default:
+				return false
+			}
+		}
+	}
+	return n == 1
 }
